@@ -65,6 +65,7 @@ struct ParserWorld : World {
 		       "\"stub\":[\"reader (getc over the plan's bytes; EOF / read error at a chosen offset; call counter)\",\"allocator (ledger; n-th allocation of the parse fails)\"]}";
 	}
 	ParserWorld() {
+		registry_global = true;      // the type tables are made on first use and live as long as the process; which table a run touches first depends on the implementation chosen (cimpl)
 		// process-global tables (type registry etc.) are created lazily: do it once, outside any run
 		Plan p; p.blobs.push_back(Bytes{'a', '=', '1', '\n', 's', '{', 'b', '=', '2', '}', '\n'}); p.blobs.push_back(Bytes{'{', '*', '}', ' ', '=', ' ', '#'});
 		node root; Reader rd; rd.p = p.blobs[0].data(); rd.n = p.blobs[0].size(); rd.cap = 1000;
